@@ -10,4 +10,5 @@ Extraction "model.ml" pstep sstep wf_from outstanding
   query_all last_op_time oplog_append append_ok reopen declutter spec_last all_records file_bytes sorted_times search
   step connect disconnect drain init_node n_set_repl n_set_sup strat_to_str Z_to_str flush_snapshots http_request dflush drestart snapshot_plan load_db apply_fops
   settle deliver reply poll_sup poll_repl_c client_cmd client_conn add_sec init_cnode get_cn put_cn cn_set_node get_sess n_set_clock
-  run_par new_thread dflush_crash dflush_plan is_sc.
+  run_par new_thread dflush_crash dflush_plan is_sc
+  mstart mcmd mconnect mpoll mflush mshutdown mcrash decode_rec keymap_bytes mtake_before is_msc mf_empty apply_mops dedup_snap.
